@@ -400,7 +400,7 @@ bool ZCK_PUBLIC_API zck_close(zckCtx *zck) {
     VALIDATE_BOOL(zck);
 
     if(zck->mode == ZCK_MODE_WRITE) {
-        if(zck_end_chunk(zck) < 0)
+        if(end_chunk(zck, true) < 0)
             return false;
         if(!header_create(zck))
             return false;
